@@ -48,13 +48,18 @@ def senderConfined : Bool := sites_sender.all fun s => senderCls s && !s.mutatin
 
 /-! ### C07: the daemon touches a module's directory only after the writability check -/
 
-def daemonGuarded : Bool := sites_rsyncd.all fun s => s.writableChecked
+def daemonGuarded : Bool := sites_rsyncd.all fun s => s.writableChecked ||
+  -- the check that an upload's subdirectory lies below the module (D43): two `Stat`s, nothing is changed
+  (s.fn == .subdirInModule && !s.mutating)
 
 /-- raw paths in the daemon: only the configured module path itself (created / opened as the root) -/
 def daemonRawOnlyModuleRoot : Bool :=
   sites_rsyncd.all fun s => s.cls != .rawPath ||
     ((s.fn == .handleConnReceiver || s.fn == .restrictToModules) &&
-      (s.calleeId == callee_os_MkdirAll || s.calleeId == callee_os_OpenRoot))
+      (s.calleeId == callee_os_MkdirAll || s.calleeId == callee_os_OpenRoot)) ||
+    -- `os.Stat(subReal)` in `subdirInModule`: the resolved path of the requested subdirectory is compared with the
+    -- directory that was opened through the root (D43); read-only
+    (s.fn == .subdirInModule && s.calleeId == callee_os_Stat && !s.mutating)
 
 /-- raw-path sites name exactly the configured paths: the module path (daemon), the walker's local
 directory (sender), nothing at all in the receiver; and in `handleConnReceiver` the destination path is
@@ -62,7 +67,7 @@ the module path from the `Transfer` literal until the root has been opened -/
 def rawArgsPinned : Bool :=
   rawArgs_receiver == [] &&
   rawArgs_sender == [("os.OpenRoot", "s.localDir")] &&
-  rawArgs_rsyncd == [("os.MkdirAll", "mod.Path"), ("os.MkdirAll", "rt.Dest"), ("os.OpenRoot", "rt.Dest")] &&
+  rawArgs_rsyncd == [("os.MkdirAll", "mod.Path"), ("os.Stat", "subReal"), ("os.MkdirAll", "rt.Dest"), ("os.OpenRoot", "rt.Dest")] &&
   destEvents_rsyncd.take 3 == ["Dest: module.Path", "os.MkdirAll(rt.Dest)", "os.OpenRoot(rt.Dest)"] &&
   (destEvents_rsyncd.drop 3).all (fun e => e.startsWith "rt.Dest = ")
 
@@ -74,7 +79,7 @@ with a trailing slash must never reach an `*os.Root` method: the kernel then fol
 in the last position and the root's own check does not see it (D28; validated by the rootfs suite) -/
 def rootNamesClean : Bool :=
   rootNameArgs_receiver.all (fun a => ["f.Name", "filepath.Dir(f.Name)", "parent", "path", "rt.DestRoot", "fn", "root"].contains a) &&
-  rootNameArgs_rsyncd.all (fun a => ["subdir"].contains a) &&
+  rootNameArgs_rsyncd.all (fun a => ["subdir", "\".\""].contains a) &&
   rootNameArgs_sender.all (fun a => ["name", "path", "fl.path"].contains a) &&
   receiverNameCleaned && daemonSubdirCleaned && senderWalkRootCleaned
 
